@@ -37,6 +37,7 @@ def _work(chunk):
 
 class E2Prop:
     id = "C00"
+    name = "e2"
     engine = "E2"
     lean_modules = []
     driver = None
